@@ -443,6 +443,23 @@ class Evaluator:
             return self.exec_for(st, conds, env, ctx)
         if isinstance(st, (ast.Import, ast.ImportFrom)):
             return [(conds, env, None)]
+        if isinstance(st, (ast.With,)) and self.effects_mode:
+            e2 = dict(env)
+            for it in st.items:
+                alts = self.ev(it.context_expr, e2, ctx)
+                if len(alts) != 1 or alts[0][0]:
+                    raise Unreadable("piecewise context manager")
+                if it.optional_vars is not None:
+                    self.bind(it.optional_vars, Rat.atom(("ctx", as_term(alts[0][1]))), e2, ctx)
+            return self.exec_block(st.body, [(conds, e2, None)], ctx)
+        if isinstance(st, ast.Try) and self.effects_mode:
+            # normal flow only: handlers run on exceptions, which are not modelled in effect traces
+            out = self.exec_block(st.body, [(conds, env, None)], ctx)
+            if st.orelse:
+                out = self.exec_block(st.orelse, out, ctx)
+            if st.finalbody:
+                out = self.exec_block(st.finalbody, out, ctx)
+            return out
         if isinstance(st, ast.FunctionDef):
             e2 = dict(env)
             e2[st.name] = FuncRef(FuncInfo(ctx.f.module, None, st), None, None)
@@ -1300,7 +1317,10 @@ class Evaluator:
         if short == "isinstance":
             return [(frozenset(), Rat.atom(("isinstance", as_term(pos[0]), nm)))]
         if short in ("list", "tuple") and len(pos) == 1 and not isinstance(fv, FuncRef):
-            return [(frozenset(), pos[0])]
+            if isinstance(pos[0], (Tup, Seq)):
+                return [(frozenset(), pos[0])]
+            # a snapshot copy of a live container is not the container itself
+            return [(frozenset(), Rat.atom((short, as_term(pos[0]))))]
         if short == "sorted" and len(pos) == 1 and not kw and isinstance(pos[0], Tup) and not isinstance(fv, FuncRef):
             return [(frozenset(), SortedTup(pos[0].items))]
         if isinstance(fv, FuncRef):
